@@ -157,10 +157,16 @@ func (e *evalEngine) CharacterInfo(t key.TargetID) (info.Character, error) {
 	}
 	return info.Character{Key: key.Character(u.key), Element: model.DamageType(u.elem)}, nil
 }
-func (e *evalEngine) IsValid(t key.TargetID) bool     { return e.world.unit(t) != nil }
-func (e *evalEngine) IsAlive(t key.TargetID) bool     { u := e.world.unit(t); return u != nil && u.alive }
-func (e *evalEngine) IsCharacter(t key.TargetID) bool { u := e.world.unit(t); return u != nil && u.class == "c" }
-func (e *evalEngine) IsEnemy(t key.TargetID) bool     { u := e.world.unit(t); return u != nil && u.class == "e" }
+func (e *evalEngine) IsValid(t key.TargetID) bool { return e.world.unit(t) != nil }
+func (e *evalEngine) IsAlive(t key.TargetID) bool { u := e.world.unit(t); return u != nil && u.alive }
+func (e *evalEngine) IsCharacter(t key.TargetID) bool {
+	u := e.world.unit(t)
+	return u != nil && u.class == "c"
+}
+func (e *evalEngine) IsEnemy(t key.TargetID) bool {
+	u := e.world.unit(t)
+	return u != nil && u.class == "e"
+}
 func (e *evalEngine) SP() int {
 	if e.world == nil {
 		return 0
@@ -173,15 +179,28 @@ func (e *evalEngine) fl(t key.TargetID, f func(*wUnit) float64) float64 {
 	}
 	return 0
 }
-func (e *evalEngine) Energy(t key.TargetID) float64    { return e.fl(t, func(u *wUnit) float64 { return u.energy }) }
-func (e *evalEngine) MaxEnergy(t key.TargetID) float64 { return e.fl(t, func(u *wUnit) float64 { return u.maxEnergy }) }
+func (e *evalEngine) Energy(t key.TargetID) float64 {
+	return e.fl(t, func(u *wUnit) float64 { return u.energy })
+}
+func (e *evalEngine) MaxEnergy(t key.TargetID) float64 {
+	return e.fl(t, func(u *wUnit) float64 { return u.maxEnergy })
+}
 func (e *evalEngine) EnergyRatio(t key.TargetID) float64 {
 	return e.fl(t, func(u *wUnit) float64 { return u.energy / u.maxEnergy })
 }
-func (e *evalEngine) HPRatio(t key.TargetID) float64   { return e.fl(t, func(u *wUnit) float64 { return u.hp }) }
-func (e *evalEngine) Stance(t key.TargetID) float64    { return e.fl(t, func(u *wUnit) float64 { return u.stance }) }
-func (e *evalEngine) MaxStance(t key.TargetID) float64 { return e.fl(t, func(u *wUnit) float64 { return u.maxStnc }) }
-func (e *evalEngine) IsShielded(t key.TargetID) bool   { u := e.world.unit(t); return u != nil && u.shielded }
+func (e *evalEngine) HPRatio(t key.TargetID) float64 {
+	return e.fl(t, func(u *wUnit) float64 { return u.hp })
+}
+func (e *evalEngine) Stance(t key.TargetID) float64 {
+	return e.fl(t, func(u *wUnit) float64 { return u.stance })
+}
+func (e *evalEngine) MaxStance(t key.TargetID) float64 {
+	return e.fl(t, func(u *wUnit) float64 { return u.maxStnc })
+}
+func (e *evalEngine) IsShielded(t key.TargetID) bool {
+	u := e.world.unit(t)
+	return u != nil && u.shielded
+}
 func (e *evalEngine) HasShield(t key.TargetID, k key.Shield) bool {
 	if u := e.world.unit(t); u != nil {
 		for _, s := range u.shields {
